@@ -69,7 +69,12 @@ func verify(f *os.File, opts signers.VerifyOpts) ([]*signers.Signature, error) {
 			return nil, errors.New("empty APK signing block")
 		}
 		for i, signer := range signerList {
-			sig, err := signer.Verify(nil)
+			// compare the signed digests with the file unless told not to
+			digestFrom := inz
+			if opts.NoDigests {
+				digestFrom = nil
+			}
+			sig, err := signer.Verify(digestFrom)
 			if err != nil {
 				return nil, fmt.Errorf("APK signature #%d: %w", i+1, err)
 			}
